@@ -31,6 +31,12 @@ def load_corpus():
 
 
 def apply_edit(root: Path, v):
+    if v.get("patch"):
+        r = subprocess.run(["patch", "-p1", "-s", "-d", str(root), "-i", str(HERE / v["patch"])],
+                           capture_output=True, text=True)
+        if r.returncode != 0:
+            return "patch does not apply: " + (r.stdout + r.stderr)[-300:]
+        return None
     edits = v.get("edits") or [dict(file=v["file"], old=v["old"], new=v["new"], nth=v.get("nth"))]
     for e in edits:
         f = root / e["file"]
@@ -64,7 +70,7 @@ def run_variant(v):
         if err:
             return v, "BROKEN", err
         # the variant must still be valid Python
-        for e in (v.get("edits") or [v]):
+        for e in ([] if v.get("patch") else (v.get("edits") or [v])):
             try:
                 compile((tmp / e["file"]).read_text(), e["file"], "exec")
             except SyntaxError as exc:
